@@ -75,6 +75,59 @@ let hex_of_str (s : str) : string =
 
 let words line = List.filter (fun w -> w <> "") (String.split_on_char ' ' line)
 
+(* ---- S-expression token reader ---- *)
+type toks = { a : string array; mutable i : int }
+let toks_of line = { a = Array.of_list (words line); i = 0 }
+let peek t = t.a.(t.i)
+let next t = let x = t.a.(t.i) in t.i <- t.i + 1; x
+let expect t s = let x = next t in if x <> s then failwith ("expected " ^ s ^ " got " ^ x)
+
+let z_of_int i = if i = 0 then Z0 else if i > 0 then Zpos (pos_of_int i) else Zneg (pos_of_int (-i))
+
+let after_colon s = let k = String.index s ':' in String.sub s (k + 1) (String.length s - k - 1)
+let before_colon s = let k = String.index s ':' in String.sub s 0 k
+
+let rec parse_doc t : doc =
+  let x = next t in
+  if x = "N" then DNil
+  else if x = "H" then DHardline
+  else if x = "(" then begin
+    let tag = next t in
+    let d =
+      match tag with
+      | "A" -> let a = parse_doc t in let b = parse_doc t in DAppend (a, b)
+      | "G" -> DGroup (parse_doc t)
+      | "F" -> let a = parse_doc t in let b = parse_doc t in DFlatAlt (a, b)
+      | "I" -> let k = int_of_string (next t) in DNest (z_of_int k, parse_doc t)
+      | "L" -> DAlign (parse_doc t)
+      | "R" ->
+          let n = int_of_string (next t) in
+          (match parse_doc t with
+           | DText s -> DTextW (n_of_int n, s)
+           | _ -> failwith "RenderLen of non-text")
+      | _ -> failwith ("doc tag " ^ tag)
+    in
+    expect t ")"; d
+  end
+  else if String.length x >= 2 && x.[0] = 'T' && x.[1] = ':' then DText (str_of_hex (after_colon x))
+  else failwith ("doc token " ^ x)
+
+let rec dump_doc b (d : doc) =
+  match d with
+  | DNil -> Buffer.add_string b "N"
+  | DHardline -> Buffer.add_string b "H"
+  | DAppend (x, y) -> Buffer.add_string b "( A "; dump_doc b x; Buffer.add_char b ' '; dump_doc b y; Buffer.add_string b " )"
+  | DGroup x -> Buffer.add_string b "( G "; dump_doc b x; Buffer.add_string b " )"
+  | DFlatAlt (x, y) -> Buffer.add_string b "( F "; dump_doc b x; Buffer.add_char b ' '; dump_doc b y; Buffer.add_string b " )"
+  | DNest (k, x) ->
+      let k = (match k with Z0 -> 0 | Zpos p -> int_of_pos p | Zneg p -> - (int_of_pos p)) in
+      Buffer.add_string b (Printf.sprintf "( I %d " k); dump_doc b x; Buffer.add_string b " )"
+  | DText s -> Buffer.add_string b ("T:" ^ hex_of_str s)
+  | DTextW (w, s) -> Buffer.add_string b (Printf.sprintf "( R %d T:%s )" (int_of_n w) (hex_of_str s))
+  | DAlign x -> Buffer.add_string b "( L "; dump_doc b x; Buffer.add_string b " )"
+
+let doc_to_string d = let b = Buffer.create 256 in dump_doc b d; Buffer.contents b
+
 let each_line f =
   try
     while true do
@@ -91,4 +144,83 @@ let () =
       each_line (fun line ->
           let r = strip (str_of_hex (String.trim line)) in
           hex_of_str r ^ (if hygiene_b r then " 1" else " 0"))
+  | "render" ->
+      (* W DOC -> HEX | fuel *)
+      each_line (fun line ->
+          let t = toks_of line in
+          let w = n_of_int (int_of_string (next t)) in
+          let d = parse_doc t in
+          match render w d with
+          | Some s -> hex_of_str s
+          | None -> "fuel")
+  | "cli" ->
+      each_line (fun line ->
+          let t = toks_of line in
+          let b x = (x = "1") in
+          let path_of tok =
+            (* P:hex of a slash-joined relative path; P:- is the working directory *)
+            let h = after_colon tok in
+            if h = "-" then []
+            else List.map (fun c -> List.map n_of_int (scalars_of_bytes c))
+                   (List.filter (fun c -> c <> "") (String.split_on_char '/' (bytes_of_hex h))) in
+          let shape = next t in
+          let ip = b (next t) in
+          let ck = b (next t) in
+          let col = n_of_int (int_of_string (next t)) in
+          let tab = n_of_int (int_of_string (next t)) in
+          let reo = b (next t) in
+          let sty = { sa_column = col; sa_tab_width = tab; sa_reorder_import_items = reo } in
+          let inv =
+            match shape with
+            | "files" ->
+                let n = int_of_string (next t) in
+                let ps = List.init n (fun _ -> path_of (next t)) in
+                IFiles (ip, ck, sty, ps)
+            | "stdin" ->
+                let x = next t in
+                IStdin (ip, ck, sty, if x = "!" then None else Some (str_of_hex x))
+            | "all" ->
+                let x = next t in
+                IAll (ip, ck, sty, if x = "none" then None else Some (path_of x))
+            | _ -> failwith "shape" in
+          expect t "fs";
+          let n = int_of_string (next t) in
+          let fs = List.init n (fun _ ->
+              let p = path_of (next t) in
+              let k = next t in
+              let node =
+                if k = "D" then FDir else if k = "O" then FOther
+                else if k.[0] = 'T' then FText (str_of_hex (after_colon k))
+                else FBin (n_of_int (int_of_string (after_colon k))) in
+              (p, node)) in
+          expect t "ft";
+          let m = int_of_string (next t) in
+          let table = List.init m (fun _ ->
+              let c = next t in
+              let r = next t in
+              (c, if r = "!" then None else Some (str_of_hex r))) in
+          let missing = ref false in
+          let f _cfg c =
+            match List.assoc_opt (hex_of_str c) table with
+            | Some r -> r
+            | None -> missing := true; None in
+          let res = run f inv fs in
+          let st = res.r_state in
+          let pstr p = "P:" ^ (let s = String.concat "/" (List.map (fun c -> bytes_of_hex (hex_of_str c)) p) in
+                               if s = "" then "-" else
+                               let bb = Buffer.create 16 in String.iter (fun ch -> Buffer.add_string bb (Printf.sprintf "%02x" (Char.code ch))) s; Buffer.contents bb) in
+          let buf = Buffer.create 256 in
+          Buffer.add_string buf (Printf.sprintf "%d ; %d" (int_of_n res.r_exit) (List.length st.s_printed));
+          List.iter (fun s -> Buffer.add_string buf (" " ^ hex_of_str s)) st.s_printed;
+          Buffer.add_string buf (Printf.sprintf " ; %d" (List.length st.s_writes));
+          List.iter (fun ((p, o), nw) -> Buffer.add_string buf (" " ^ pstr p ^ " " ^ hex_of_str o ^ " " ^ hex_of_str nw)) st.s_writes;
+          Buffer.add_string buf (Printf.sprintf " ; %d" (List.length st.s_fs));
+          List.iter (fun (p, node) ->
+              Buffer.add_string buf (" " ^ pstr p ^ " " ^
+                (match node with
+                 | FDir -> "D" | FOther -> "O"
+                 | FText c -> "T:" ^ hex_of_str c
+                 | FBin id -> "B:" ^ string_of_int (int_of_n id)))) st.s_fs;
+          Buffer.add_string buf (if !missing then " ; missing" else " ; ok");
+          Buffer.contents buf)
   | _ -> prerr_endline ("unknown mode " ^ mode); exit 2
